@@ -98,33 +98,34 @@ Qed.
 
 (* ---------------------------------------------------------------- header *)
 
-Lemma header_trim name desc crlf :
-  name <> [] -> forallb namech name = true -> desc_ok desc = true ->
-  exists b', trim (62 :: name ++ desc ++ term crlf) = 62 :: name ++ b' /\
+Lemma header_trim name desc sp :
+  name <> [] -> forallb namech name = true -> desc_ok desc = true -> forallb isspace sp = true ->
+  exists b', trim (62 :: name ++ desc ++ sp) = 62 :: name ++ b' /\
              (b' = [] \/ exists c t, b' = c :: t /\ ((c =? 32) || (c =? 9)) = true).
 Proof.
-  intros Hne Hn Hd. exists (trim_right (desc ++ term crlf)). split.
+  intros Hne Hn Hd Hsp. exists (trim_right (desc ++ sp)). split.
   - unfold trim. rewrite trim_left_ns by reflexivity.
-    change (62 :: name ++ desc ++ term crlf) with ((62 :: name) ++ (desc ++ term crlf)).
+    change (62 :: name ++ desc ++ sp) with ((62 :: name) ++ (desc ++ sp)).
     rewrite trim_right_ns; [reflexivity|].
     simpl. eapply forallb_impl; [apply namech_ns|assumption].
   - destruct desc as [|c text].
-    + left. apply trim_right_spaces, term_spaces.
+    + left. apply trim_right_spaces. assumption.
     + simpl in Hd. apply andb_true_iff in Hd as [Hc _].
-      destruct (trim_right_head ((c :: text) ++ term crlf)) as [E|[t E]]; [left; exact E|].
+      destruct (trim_right_head ((c :: text) ++ sp)) as [E|[t E]]; [left; exact E|].
       right. exists c, t. split; [exact E|exact Hc].
 Qed.
 
-Lemma step_header idx cur off want name desc crlf :
-  name <> [] -> forallb namech name = true -> desc_ok desc = true ->
+(** A header line, terminated ([sp] = terminator) or not ([sp] = []). *)
+Lemma step_header idx cur off want name desc sp :
+  name <> [] -> forallb namech name = true -> desc_ok desc = true -> forallb isspace sp = true ->
   cur_ok cur ->
   has_name name (ni_finish (mkSt idx cur off want)) = false ->
-  let line := 62 :: name ++ desc ++ term crlf in
+  let line := 62 :: name ++ desc ++ sp in
   ni_step true (mkSt idx cur off want) line =
   Ok (mkSt (ni_finish (mkSt idx cur off want)) (mkRec name 0 (off + zlen line) 0 0) (off + zlen line) false).
 Proof.
-  intros Hne Hn Hd Hcur Hfresh line. subst line.
-  destruct (header_trim name desc crlf Hne Hn Hd) as (b' & Htrim & Hb').
+  intros Hne Hn Hd Hsp Hcur Hfresh line. subst line.
+  destruct (header_trim name desc sp Hne Hn Hd Hsp) as (b' & Htrim & Hb').
   unfold ni_step. rewrite Htrim. cbv beta iota zeta.
   destruct name as [|c name']; [congruence|].
   change (is_nil (62 :: (c :: name') ++ b')) with false.
@@ -228,6 +229,9 @@ Qed.
 (* ------------------------------------------------------------ one record *)
 
 Definition rec_lines (nl : bool) (r : srec) : list (list Z) :=
+  if is_empty r then
+    ((62 :: s_name r ++ s_desc r) ++ (if nl then term (s_crlf r) else [])) :: map term (s_blanks r)
+  else
   render_header r :: map (fun l => l ++ term (s_crlf r)) (s_full r)
   ++ [s_last r ++ (if nl then term (s_crlf r) else [])] ++ map term (s_blanks r).
 
@@ -237,10 +241,8 @@ Fixpoint all_lines (fin : bool) (rs : list srec) : list (list Z) :=
   | r :: t => match t with [] => rec_lines fin r | _ => rec_lines true r ++ all_lines fin t end
   end.
 
-Lemma wf_rec_parts nl r : wf_rec nl r = true ->
+Lemma wf_rec_head nl r : wf_rec nl r = true ->
   s_name r <> [] /\ forallb namech (s_name r) = true /\ desc_ok (s_desc r) = true /\
-  forallb (fun l => (zlen l =? width r) && forallb basech l) (s_full r) = true /\
-  1 <= zlen (s_last r) <= width r /\ forallb basech (s_last r) = true /\
   (nl = true \/ s_blanks r = []).
 Proof.
   unfold wf_rec. intros H. bprop.
@@ -248,6 +250,17 @@ Proof.
   - apply is_nil_false. assumption.
   - match goal with H : nl || _ = true |- _ => apply orb_true_iff in H as [H|H] end;
       [left; assumption|right; apply is_nil_true; assumption].
+Qed.
+
+Lemma wf_rec_parts nl r : wf_rec nl r = true -> is_empty r = false ->
+  s_name r <> [] /\ forallb namech (s_name r) = true /\ desc_ok (s_desc r) = true /\
+  forallb (fun l => (zlen l =? width r) && forallb basech l) (s_full r) = true /\
+  1 <= zlen (s_last r) <= width r /\ forallb basech (s_last r) = true /\
+  (nl = true \/ s_blanks r = []).
+Proof.
+  intros Hwf He. destruct (wf_rec_head _ _ Hwf) as (H1 & H2 & H3 & H4).
+  unfold wf_rec in Hwf. rewrite He in Hwf. cbn [orb] in Hwf. unfold wf_body in Hwf. bprop.
+  repeat split; assumption.
 Qed.
 
 Lemma lines_full full crlf rest :
@@ -280,29 +293,38 @@ Proof. unfold render_header. cbn [app]. rewrite app_assoc. reflexivity. Qed.
 Lemma lines_rec_true r rest : wf_rec true r = true ->
   lines (render_rec true r ++ rest) = rec_lines true r ++ lines rest.
 Proof.
-  intros Hwf. destruct (wf_rec_parts _ _ Hwf) as (Hne & Hn & Hd & Hf & Hl & Hlb & _).
-  unfold render_rec, render_body, rec_lines. rewrite header_split.
-  rewrite <- !app_assoc.
-  rewrite lines_term by (apply header_nolf; assumption).
-  rewrite lines_full by (eapply full_basech; eassumption).
-  rewrite lines_term by (eapply forallb_impl; [apply basech_nolf|assumption]).
-  rewrite lines_blanks.
-  cbn [app]. rewrite <- !app_assoc. reflexivity.
+  intros Hwf. unfold render_rec, rec_lines. destruct (is_empty r) eqn:He.
+  - destruct (wf_rec_head _ _ Hwf) as (Hne & Hn & Hd & _).
+    rewrite <- !app_assoc.
+    rewrite lines_term by (apply header_nolf; assumption).
+    rewrite lines_blanks. reflexivity.
+  - destruct (wf_rec_parts _ _ Hwf He) as (Hne & Hn & Hd & Hf & Hl & Hlb & _).
+    unfold render_body. rewrite header_split.
+    rewrite <- !app_assoc.
+    rewrite lines_term by (apply header_nolf; assumption).
+    rewrite lines_full by (eapply full_basech; eassumption).
+    rewrite lines_term by (eapply forallb_impl; [apply basech_nolf|assumption]).
+    rewrite lines_blanks.
+    cbn [app]. rewrite <- !app_assoc. reflexivity.
 Qed.
 
 Lemma lines_rec_false r : wf_rec false r = true ->
   lines (render_rec false r) = rec_lines false r.
 Proof.
-  intros Hwf. destruct (wf_rec_parts _ _ Hwf) as (Hne & Hn & Hd & Hf & Hl & Hlb & [Hx|Hbl]); [discriminate|].
-  unfold render_rec, render_body, rec_lines. rewrite Hbl. rewrite header_split.
-  unfold blanks. cbn [map concat]. rewrite !app_nil_r.
-  rewrite <- !app_assoc.
-  rewrite lines_term by (apply header_nolf; assumption).
-  rewrite lines_full by (eapply full_basech; eassumption).
-  rewrite lines_last.
-  - reflexivity.
-  - intros E. rewrite E, zlen_nil in Hl. lia.
-  - eapply forallb_impl; [apply basech_nolf|assumption].
+  intros Hwf. unfold render_rec, rec_lines. destruct (is_empty r) eqn:He.
+  - destruct (wf_rec_head _ _ Hwf) as (Hne & Hn & Hd & [Hx|Hbl]); [discriminate|].
+    rewrite Hbl. unfold blanks. cbn [map concat]. rewrite !app_nil_r.
+    rewrite lines_last; [reflexivity|discriminate|apply header_nolf; assumption].
+  - destruct (wf_rec_parts _ _ Hwf He) as (Hne & Hn & Hd & Hf & Hl & Hlb & [Hx|Hbl]); [discriminate|].
+    unfold render_body. rewrite Hbl. rewrite header_split.
+    unfold blanks. cbn [map concat]. rewrite !app_nil_r.
+    rewrite <- !app_assoc.
+    rewrite lines_term by (apply header_nolf; assumption).
+    rewrite lines_full by (eapply full_basech; eassumption).
+    rewrite lines_last.
+    + reflexivity.
+    + intros E. rewrite E, zlen_nil in Hl. lia.
+    + eapply forallb_impl; [apply basech_nolf|assumption].
 Qed.
 
 Lemma lines_render_recs fin rs : wf_recs fin rs = true -> lines (render_recs fin rs) = all_lines fin rs.
@@ -332,10 +354,21 @@ Lemma fold_rec nl r idx cur off want :
     Ok (mkSt (ni_finish (mkSt idx cur off want)) (entry nl off r) (off + zlen (render_rec nl r)) want').
 Proof.
   intros Hwf Hcur Hfresh.
-  destruct (wf_rec_parts _ _ Hwf) as (Hne & Hn & Hd & Hf & Hl & Hlb & Hbl).
-  unfold rec_lines. cbn [ni_fold].
+  destruct (is_empty r) eqn:He.
+  { destruct (wf_rec_head _ _ Hwf) as (Hne & Hn & Hd & _).
+    unfold rec_lines, entry, render_rec. rewrite He. cbn [ni_fold].
+    set (sp := if nl then term (s_crlf r) else []).
+    assert (Hsp : forallb isspace sp = true) by (subst sp; destruct nl; [apply term_spaces|reflexivity]).
+    rewrite <- app_comm_cons, <- app_assoc.
+    rewrite (step_header idx cur off want (s_name r) (s_desc r) sp Hne Hn Hd Hsp Hcur Hfresh).
+    cbn [obind]. rewrite fold_blanks. exists false. f_equal. f_equal.
+    - f_equal. rewrite app_comm_cons, app_assoc, zlen_app'. subst sp. unfold tlen.
+      cbn [app]. destruct nl; [|rewrite zlen_nil]; lia.
+    - rewrite !zlen_app', !zlen_cons, !zlen_app'. lia. }
+  destruct (wf_rec_parts _ _ Hwf He) as (Hne & Hn & Hd & Hf & Hl & Hlb & Hbl).
+  unfold rec_lines. rewrite He. cbn [ni_fold].
   unfold render_header at 1.
-  rewrite (step_header idx cur off want (s_name r) (s_desc r) (s_crlf r) Hne Hn Hd Hcur Hfresh).
+  rewrite (step_header idx cur off want (s_name r) (s_desc r) (term (s_crlf r)) Hne Hn Hd (term_spaces _) Hcur Hfresh).
   cbn [obind].
   set (hl := zlen (62 :: s_name r ++ s_desc r ++ term (s_crlf r))).
   set (idx1 := ni_finish (mkSt idx cur off want)).
@@ -353,7 +386,7 @@ Proof.
   { destruct (s_full r); destruct Hm as [-> ->]; [left|right]; split; reflexivity. }
   rewrite HL. cbn [obind]. rewrite fold_blanks.
   exists want'. f_equal. f_equal.
-  - unfold entry. rewrite zlen_concat_bases. unfold render_header. fold hl. unfold tlen.
+  - unfold entry. rewrite He. rewrite zlen_concat_bases. unfold render_header. fold hl. unfold tlen.
     unfold width, first_line in *.
     destruct (s_full r) as [|l0 fl] eqn:Efull; destruct Hm as [-> ->].
     + change (0 =? 0) with true. cbv beta iota. subst sp. f_equal; try lia.
@@ -361,7 +394,7 @@ Proof.
     + assert (Hw0 : (zlen l0 =? 0) = false).
       { apply Z.eqb_neq. lia. }
       rewrite Hw0. f_equal; lia.
-  - unfold render_rec, render_body, render_header. fold hl. fold sp. rewrite !zlen_app'. fold hl. lia.
+  - unfold render_rec. rewrite He. unfold render_body, render_header. fold hl. fold sp. rewrite !zlen_app'. fold hl. lia.
 Qed.
 
 (* ------------------------------------------------------------ all records *)
@@ -394,6 +427,9 @@ Lemma wf_recs_cons fin r t :
   wf_recs fin (r :: t) = wf_rec (match t with [] => fin | _ => true end) r && wf_recs fin t.
 Proof. destruct t; cbn [wf_recs]; [rewrite andb_true_r|]; reflexivity. Qed.
 
+Lemma entry_name nl off r : r_name (entry nl off r) = s_name r.
+Proof. unfold entry. destruct (is_empty r); reflexivity. Qed.
+
 Lemma fold_recs rs : forall fin idx cur off want,
   wf_recs fin rs = true -> nodup_names rs = true -> cur_ok cur ->
   (forall r, In r rs -> has_name (s_name r) (ni_finish (mkSt idx cur off want)) = false) ->
@@ -411,15 +447,15 @@ Proof.
     destruct (fold_rec nl r idx cur off want Hwr Hcur (Hfresh r (or_introl eq_refl))) as (want' & HR).
     rewrite all_lines_cons. fold nl. rewrite ni_fold_app, HR. cbn [obind].
     set (idx1 := ni_finish (mkSt idx cur off want)) in *.
-    assert (Hne : s_name r <> []) by (apply (wf_rec_parts _ _ Hwr)).
+    assert (Hne : s_name r <> []) by (apply (wf_rec_head _ _ Hwr)).
     assert (Hfin1 : ni_finish (mkSt idx1 (entry nl off r) (off + zlen (render_rec nl r)) want') = idx1 ++ [entry nl off r]).
-    { unfold ni_finish. cbn [n_cur n_idx]. unfold entry at 1. cbn [r_name].
-      apply is_nil_false in Hne. rewrite Hne. apply map_set_fresh. unfold entry. cbn [r_name].
+    { unfold ni_finish. cbn [n_cur n_idx]. rewrite entry_name.
+      apply is_nil_false in Hne. rewrite Hne. apply map_set_fresh. rewrite entry_name.
       apply (Hfresh r (or_introl eq_refl)). }
     destruct (IH fin idx1 (entry nl off r) (off + zlen (render_rec nl r)) want' Hwt Hndt) as (s' & HF & Hfin & Hoff).
-    { right. unfold entry. cbn [r_name]. assumption. }
+    { right. rewrite entry_name. assumption. }
     { intros x Hx. rewrite Hfin1. rewrite has_name_app. rewrite (Hfresh x (or_intror Hx)).
-      unfold has_name, lookup, entry. cbn [r_name]. rewrite bytes_eqb_sym. rewrite (Hdiff x Hx). reflexivity. }
+      unfold has_name, lookup. rewrite entry_name. rewrite bytes_eqb_sym. rewrite (Hdiff x Hx). reflexivity. }
     exists s'. split; [exact HF|]. split.
     + rewrite Hfin, Hfin1, entries_cons. fold nl. rewrite <- app_assoc. cbn [app].
       destruct t as [|r' t'].
@@ -428,11 +464,58 @@ Proof.
     + rewrite Hoff, render_recs_cons. fold nl. rewrite zlen_app'. lia.
 Qed.
 
-(** NewIndex of the rendering of a well-formed file is the list of true entries. *)
-Theorem newindex_render f : wf f = true -> newindex (render f) = Ok (index_of f).
+(* ------------------------------------------------------- Scanner limit *)
+
+Lemma scan_tokens_fit ls : forallb token_fits ls = true -> scan_tokens ls = (ls, false).
 Proof.
-  unfold wf. intros H. bprop.
-  unfold newindex, newindex_gen. rewrite blank_adv.
+  induction ls as [|l t IH]; intros H; [reflexivity|].
+  cbn [forallb] in H. apply andb_true_iff in H as [H1 H2].
+  cbn [scan_tokens]. rewrite H1, IH by assumption. reflexivity.
+Qed.
+
+Lemma scan_tokens_long ls : forallb token_fits ls = false -> snd (scan_tokens ls) = true.
+Proof.
+  induction ls as [|l t IH]; intros H; [discriminate|].
+  cbn [forallb] in H. cbn [scan_tokens]. destruct (token_fits l); [|reflexivity].
+  cbn [andb] in H. destruct (scan_tokens t) as [a b]. cbn [snd] in *. apply IH. assumption.
+Qed.
+
+Lemma newindex_gen_fit adv file : lines_fit file = true ->
+  newindex_gen adv file = obind (ni_fold adv nstate0 (lines file)) (fun s => Ok (ni_finish s)).
+Proof.
+  unfold newindex_gen, lines_fit. intros H. rewrite scan_tokens_fit by assumption. reflexivity.
+Qed.
+
+(** The scan loop ends normally or with one of its error exits. *)
+Lemma ni_step_total adv s l : (exists s', ni_step adv s l = Ok s') \/ (exists e, ni_step adv s l = Err e).
+Proof.
+  unfold ni_step. destruct s as [idx cur off want]. cbv zeta.
+  repeat match goal with
+         | |- context [if ?c then _ else _] => destruct c
+         | |- context [let '(_, _) := ?p in _] => destruct p
+         end; cbn [obind]; eauto.
+Qed.
+
+Lemma ni_fold_total adv ls : forall s, (exists s', ni_fold adv s ls = Ok s') \/ (exists e, ni_fold adv s ls = Err e).
+Proof.
+  induction ls as [|l t IH]; intros s; cbn [ni_fold]; [eauto|].
+  destruct (ni_step_total adv s l) as [[s' ->]|[e ->]]; cbn [obind]; [apply IH|eauto].
+Qed.
+
+(** A line beyond the Scanner's limit: NewIndex reports an error (an error
+    exit of the loop on an earlier line, or the Scanner's), never an index. *)
+Theorem newindex_too_long file : lines_fit file = false -> exists e, newindex file = Err e.
+Proof.
+  unfold lines_fit. intros H. apply scan_tokens_long in H.
+  unfold newindex, newindex_gen. destruct (scan_tokens (lines file)) as [toks b]. cbn [snd] in H. subst b.
+  destruct (ni_fold_total fai_NewIndex_blank_advances toks nstate0) as [[s' ->]|[e ->]]; cbn [obind]; eauto.
+Qed.
+
+(** NewIndex of the rendering of a well-formed file is the list of true entries. *)
+Theorem newindex_render f : wf f = true -> lines_fit (render f) = true -> newindex (render f) = Ok (index_of f).
+Proof.
+  unfold wf. intros H Hfit. bprop.
+  unfold newindex. rewrite newindex_gen_fit by assumption. rewrite blank_adv.
   unfold render. rewrite lines_blanks. rewrite lines_render_recs by assumption.
   rewrite ni_fold_app. unfold nstate0. rewrite fold_blanks. cbn [obind].
   destruct (fold_recs (f_recs f) (f_final_nl f) [] rec0 (0 + zlen (blanks (f_lead f))) false) as (s' & HF & Hfin & _);
